@@ -4,7 +4,7 @@
    transcription of queue<T> (QueueDefs.q_step) resp. queue<void> (vq_step).  `q_final ops` is the state after the history,
    `q_good pv q done` is the invariant every destruction-free history establishes (q_good_run); histories containing a
    destroy are covered by c09_destroy_cancels + c09_dead_rejects (after destruction every op is rejected). *)
-From Cocls Require Import Base BaseProofs QueueDefs QueueProofs.
+From Cocls Require Import Base BaseProofs QueueDefs QueueProofs QueueConcProofs.
 Local Open Scope Z_scope.
 
 (* sequential refinement: every observation of the code-shaped model is the observation of the FIFO specification
@@ -94,6 +94,21 @@ Print Assumptions c09_oracle_accepts_model.
 Theorem c09_void_oracle_accepts_model : forall ops, vq_oracle ops (vq_run ops) = true.
 Proof. exact vq_oracle_accepts_model. Qed.
 Print Assumptions c09_void_oracle_accepts_model.
+
+(* ---- interleaving model (queue<T>): ANY number of producer / consumer / unblock_pop threads, ANY schedule of ANY length.
+   A push or pop is a critical section followed, after the unlock, by a separate step that resolves the promise taken
+   inside (QueueDefs.tstep).  In every reachable state the items pushed so far (every producer's first k values, tagged
+   with producer and index, hence pairwise distinct: NoDup) are exactly, as a multiset, the items received by pops + the
+   items in flight between a critical section and its resolution + the queued items + the items held by blocked pushes;
+   and items / waiting consumers are never both non-empty. ---- *)
+Theorem c09_conc_conservation : forall thrs s, Forall t_fresh thrs -> t_reachable None thrs s ->
+  NoDup (t_plog s) /\
+  Permutation (t_plog s)
+    (map snd (ritems (t_rlog s)) ++ map snd (iitems (t_infl s)) ++ t_items s ++ map fst (t_blocked s)) /\
+  (forall p, filter (of_p p) (t_plog s) = expected_plog p (nth_error (t_thr s) p)) /\
+  (t_items s = [] \/ t_waiters s = []).
+Proof. intros thrs s. exact (tq_conservation None thrs s I). Qed.
+Print Assumptions c09_conc_conservation.
 
 (* non-vacuity: three pops wait, unblock_pop fails the oldest, two pushes serve the next two in order, a third is queued *)
 Example c09_nonvacuous :
